@@ -2,6 +2,7 @@ package zzverif
 
 import (
 	"fmt"
+	"math"
 	"sort"
 	"unsafe"
 
@@ -26,6 +27,8 @@ type ConcOpts struct {
 	Rounds     bool // C03: the clock only moves at barriers between rounds; deadline-aware lin model
 	SweepCheck bool // C13: advance the clock by more than a tick before the final CleanUp and demand a clean sweep
 	AsyncClock bool // C03/C02: tasks advance the clock while other operations are in flight; interval deadline model
+	AimAdvance bool // half of the clock advances are aimed at the configured lifetime (d, d-1, d/2+1, d+0..2, d/3+1)
+	Ticker     bool // half of the runs: clock advances feed the clock's ticker, so otter's periodic clean-up goroutine runs CleanUp concurrently with the clients
 	NonTrivial func(o *ConcOutcome) bool
 }
 
@@ -45,6 +48,7 @@ type ConcMode struct {
 	NoCleanup  bool `json:"no_cleanup,omitempty"`
 	SweepCheck bool `json:"sweep_check,omitempty"`
 	AsyncClock bool `json:"async_clock,omitempty"`
+	FarSweep   bool `json:"far_sweep,omitempty"` // sweep check: the final clock jump goes past every remaining deadline
 }
 
 // HistOp is one recorded operation of a client task.
@@ -61,6 +65,7 @@ type HistOp struct {
 }
 
 type ConcOutcome struct {
+	Infra      string // set when the harness could not set the run up: infrastructure trouble, not a verdict
 	Viol       []Violation
 	LogHash    uint64
 	Steps      uint64
@@ -161,7 +166,9 @@ func runConc(seed uint64, cc *ConcCase, schedule []simrt.Deviation, replay bool,
 		out.Strategy = strat.Name()
 	}
 	out.Hist = cr.hist
-	if w.Fail != nil && w.Fail.Kind == simrt.FailStepBudgetUnfair {
+	if w.Fail != nil && w.Fail.Kind == simrt.FailSetup {
+		out.Infra = w.Fail.Detail
+	} else if w.Fail != nil && w.Fail.Kind == simrt.FailStepBudgetUnfair {
 		out.Probes["inconclusive-step-budget-under-strategy"]++
 	} else if w.Fail != nil {
 		props := P("C08", "C14", "C02")
@@ -281,8 +288,23 @@ func (cr *concRun) main() {
 		cr.eventsAtNoCleanup = len(r.Events)
 	})
 	if cr.opts.SweepCheck {
-		// every write has returned; move the clock more than one tick past "now"
-		r.Advance(tickSlack + 7)
+		// every write has returned; move the clock more than one tick past "now" - or, in half of
+		// the runs, more than one tick past the latest deadline any present entry has, after which
+		// the CleanUp must leave nothing behind (an entry the timer wheel lost track of shows here)
+		step := int64(tickSlack + 7)
+		if cc.Mode != nil && cc.Mode.FarSweep {
+			far := w.Now
+			for _, e := range cr.rawNoCleanup {
+				if e.ExpiresAtNano > far {
+					far = e.ExpiresAtNano
+				}
+			}
+			if far-w.Now < math.MaxInt64/4 && w.Now < math.MaxInt64/4 {
+				step += far - w.Now
+				cr.probe["sweep-final-advance-past-all-deadlines"]++
+			}
+		}
+		r.Advance(step)
 		cr.probe["sweep-final-advance"]++
 	}
 	if !cr.opts.NoCleanup {
